@@ -706,6 +706,31 @@ def run(chk):
     if not n_w:
         raise core.AnalysisBroken("UDQASTNode: no method updates the sign member")
 
+    # ---- C17.assignorder: the ASSIGN history of a quantity, latest record last
+    r_ao = chk.rule("C17.assignorder", "UDQAssign keeps the ASSIGN records of one quantity in input order: records are only appended (emplace_back / push_back); every evaluation that replays them walks `records` from first to last, so a later ASSIGN overwrites an earlier one; where a single record stands for the whole history - the value of a field/scalar quantity, the report step of the assignment - it is the LAST one (records.back())", floor=8)
+    ax = chk.facts(["opm/input/eclipse/Schedule/UDQ/UDQAssign.cpp"])
+    n_ao = 0
+    for f in ax.fns:
+        if not f.get("body") or not (f.get("cls") or "").endswith("UDQAssign") or not f["file"].endswith("UDQAssign.cpp"):
+            continue
+        for n in walk(f["body"]):
+            if n["k"] == "ForRange" and "records" in show(n.get("range")):
+                key = "%s/%d:replay@%d" % (f["n"], len(f["params"]), n["l"])
+                chk.instance(r_ao, key, sample=dict(function=f["q"], range=show(n["range"])))
+                if show(strip(n["range"])) != "this.records":
+                    chk.violation(r_ao, key, "%s replays the ASSIGN records over `%s`; input order is `this->records` from first to last" % (f["q"], show(n["range"])), f["file"], n["l"])
+            if n["k"] == "MCall" and isinstance(n.get("obj"), dict) and show(strip(n["obj"])) == "this.records":
+                m_ = n.get("m")
+                key = "%s/%d:%s@%d" % (f["n"], len(f["params"]), m_, n["l"])
+                if m_ in ("front", "back", "at", "begin", "rbegin", "insert", "emplace", "push_back", "emplace_back", "erase", "pop_back", "clear"):
+                    chk.instance(r_ao, key, sample=dict(function=f["q"], access=show(n)[:80]))
+                if m_ in ("front", "rbegin", "insert", "emplace", "erase", "pop_back") or (m_ == "at"):
+                    chk.violation(r_ao, key, "%s uses `%s`: the record that stands for the history of a quantity is the latest one (records.back()), and records are only appended - with front() a quantity that is ASSIGNed a second time keeps its first value" % (f["q"], show(n)[:80]), f["file"], n["l"])
+            if n["k"] in ("Idx", "OpCall") and (n["k"] == "Idx" or n.get("op") == "[]") and show(strip((n.get("c") or n.get("a") or [{}])[0])) == "this.records":
+                key = "%s/%d:index@%d" % (f["n"], len(f["params"]), n["l"])
+                chk.instance(r_ao, key, sample=dict(function=f["q"], access=show(n)[:80]))
+                chk.violation(r_ao, key, "%s picks a record by position (`%s`); only the last record (back()) stands for the history" % (f["q"], show(n)[:80]), f["file"], n["l"])
+
     chk.assumptions += [
         "documented precedence: parentheses/functions, ^, * /, + -, comparisons, set operators (the property statement)",
         "NAME_IMPL / NAME_TOKEN in rules/C17.py: documented meaning of every UDQ function and operator name",
